@@ -217,4 +217,97 @@ def colMax (rows : List (List α)) (mem : List α) : List α :=
 
 end Memory
 
+/-! ### normalisation: ideal / worst point, `find_extreme_points` (577-593), `find_intercepts`
+(596-617)
+
+Polymorphic in `RealLike`.  `numpy.linalg.solve` is a *parameter* `solve A b` (`none` =
+`LinAlgError`); the code itself tests the contract `A·x = b` with `numpy.allclose`. -/
+
+section Normalise
+variable {α : Type} [RealLike α]
+
+/-- `numpy.min(fitnesses, axis=0)` (no remembered point). -/
+def colMin0 (rows : List (List α)) : List α :=
+  match rows with
+  | [] => []
+  | r :: rs => colMin rs r
+
+def colMax0 (rows : List (List α)) : List α :=
+  match rows with
+  | [] => []
+  | r :: rs => colMax rs r
+
+/-- lines 546-551: `best_point` -/
+def idealPoint (fits : List (List α)) (mem : Option (List α)) : List α :=
+  match mem with
+  | some m => colMin fits m
+  | none => colMin0 fits
+
+/-- lines 546-551: `worst_point` -/
+def worstPoint (fits : List (List α)) (mem : Option (List α)) : List α :=
+  match mem with
+  | some m => colMax fits m
+  | none => colMax0 fits
+
+/-- `numpy.max` of a row (the first maximal value is kept) -/
+def maxL : List α → α
+  | [] => RealLike.ofNat 0
+  | x :: xs => xs.foldl (fun a b => if a < b then b else a) x
+
+/-- lines 587-588: `asf = numpy.eye(M); asf[asf == 0] = 1e6` -/
+def asfWeight (j m : Nat) : α := if m = j then RealLike.ofNat 1 else RealLike.ofNat 1000000
+
+/-- line 589 for axis `j` and one translated row: `max_m ft[m] * asf[j][m]` -/
+def asf (M j : Nat) (ft : List α) : α :=
+  maxL (List.zipWith (· * ·) ft ((List.range M).map (asfWeight j)))
+
+/-- `find_extreme_points(fitnesses, best_point, extreme_points)` -/
+def findExtremePoints (fits : List (List α)) (best : List α) (ext : Option (List (List α))) :
+    List (List α) :=
+  let rows := match ext with
+    | some e => fits ++ e            -- line 581
+    | none => fits
+  let ft := rows.map (fun r => List.zipWith (· - ·) r best)          -- line 584
+  (List.range best.length).map (fun j =>
+    rows.getD (argminIdx (ft.map (asf best.length j))) [])            -- lines 592-593
+
+/-- `v == 0` on floats (written with `<` only) -/
+def isZero (x : α) : Bool := !(decide (x < RealLike.ofNat 0)) && !(decide (RealLike.ofNat 0 < x))
+
+/-- `numpy.allclose(v, ones)`: `|v - 1| <= atol + rtol * |1|`, rtol = 1e-5, atol = 1e-8 -/
+def allcloseOne (v : List α) : Bool :=
+  v.all (fun y => decide (RealLike.abs (y - RealLike.ofNat 1) ≤
+    RealLike.ofRatio 1 100000000 + RealLike.ofRatio 1 100000 * RealLike.abs (RealLike.ofNat 1)))
+
+/-- the acceptance test of lines 612-614 for a solution `x` (all components non-zero) -/
+def acceptIntercepts (A : List (List α)) (x best worst : List α) : Bool :=
+  let ic := x.map (fun v => RealLike.ofNat 1 / v)
+  allcloseOne (A.map (fun row => dot row x)) &&
+  !(ic.any (fun v => decide (v ≤ RealLike.ofRatio 1 1000000))) &&
+  !((List.zipWith (fun (s w : α) => decide (w < s)) (List.zipWith (· + ·) ic best) worst).any id)
+
+/-- `find_intercepts(extreme_points, best_point, current_worst, front_worst)` -/
+def findIntercepts (solve : List (List α) → List α → Option (List α))
+    (extreme : List (List α)) (best worst frontWorst : List α) : List α :=
+  let b := List.replicate best.length (RealLike.ofNat 1 : α)          -- line 600
+  let A := extreme.map (fun r => List.zipWith (· - ·) r best)          -- line 601
+  match solve A b with
+  | none => worst                                                      -- lines 604-605
+  | some x =>
+    if x.any isZero then frontWorst                                    -- lines 607-608
+    else if acceptIntercepts A x best worst then x.map (fun v => RealLike.ofNat 1 / v)
+    else frontWorst                                                    -- lines 610-615
+
+/-- lines 546-557 of `selNSGA3`: `(best_point, worst_point, extreme_points, intercepts)`. -/
+def normalisation (solve : List (List α) → List α → Option (List α)) (fits : List (List α))
+    (memBest memWorst : Option (List α)) (memExt : Option (List (List α))) :
+    List α × List α × List (List α) × List α :=
+  let best := idealPoint fits memBest
+  let worst := worstPoint fits memWorst
+  let extreme := findExtremePoints fits best memExt
+  let frontWorst := colMax0 fits                                       -- line 555
+  (best, worst, extreme, findIntercepts solve extreme best worst frontWorst)
+
+end Normalise
+
 end Nsga3
